@@ -27,6 +27,7 @@ class Transport:
         self.blocked = False          # async: stream exhausted but more may come later
         self.limit = None             # bytes released to the client so far (None = everything written is readable)
         self.max_write = None
+        self.write_budget = None      # async: bytes the transport still accepts before writes block (None = unlimited)
     def avail(self):
         """bytes deliverable by the next read"""
         end = len(self.stream) if self.limit is None else min(len(self.stream), self.limit)
@@ -145,9 +146,23 @@ class ReadBufFut(PyFuture):
         return ok(n)
 
 class WriteAllFut(PyFuture):
-    def __init__(self, t, data): self.t = t; self.data = data; self.done = False
+    """write_all: loops over poll_write until everything is written; the transport may accept only `write_budget`
+    more bytes and then block (Pending) until the harness lifts the budget"""
+    def __init__(self, t, data): self.t = t; self.data = list(data); self.off = 0
     def poll(self, I):
-        return do_write(I, self.t, self.data)
+        t = self.t
+        rem = len(self.data) - self.off
+        n = rem if t.write_budget is None else min(rem, t.write_budget)
+        if n > 0 or rem == 0:
+            r = do_write(I, t, self.data[self.off:self.off + n])
+            if r.variant == 'Err':
+                return r
+            self.off += n
+            if t.write_budget is not None:
+                t.write_budget -= n
+        if self.off >= len(self.data):
+            return ok(UNIT)
+        return PENDING
 
 @model('AsyncReadExt::read_buf')
 def m_read_buf(I, c, args, fr):
@@ -168,6 +183,11 @@ def m_awrite(I, c, args, fr):
             mw = getattr(t, 'max_write', None)
             if mw is not None:
                 k = min(k, mw)
+            if t.write_budget is not None:
+                if t.write_budget == 0:
+                    return PENDING
+                k = min(k, t.write_budget)
+                t.write_budget -= k
             r = do_write(I2, t, data[:k])
             return ok(k) if r.variant == 'Ok' else r
     return W()
